@@ -168,7 +168,7 @@ def extract_body(relpath, anchor, occurrence=None, of=None, within=None):
 def extract_text(relpath, anchor, group=0):
     """Single regex capture from the comment-blanked file; must match once."""
     text, shadow = load(relpath)
-    ms = list(re.finditer(anchor, shadow))
+    ms = list(re.finditer(anchor, shadow, re.S))
     if len(ms) != 1:
         raise ExtractionError("%s: text anchor /%s/ matched %d times" %
                               (relpath, anchor, len(ms)))
